@@ -19,9 +19,10 @@ import time
 
 def _bootstrap() -> None:
     # deterministic hashing for the harness and the library (re-exec once)
-    if os.environ.get("PYTHONHASHSEED") != "0":
-        env = dict(os.environ, PYTHONHASHSEED="0")
-        os.execve(sys.executable, [sys.executable, "-m", "vf.run", *sys.argv[1:]], env)
+    want = {"PYTHONHASHSEED": "0", "OPENBLAS_NUM_THREADS": "1", "OMP_NUM_THREADS": "1", "MKL_NUM_THREADS": "1"}
+    if any(os.environ.get(k) != v for k, v in want.items()):
+        # deterministic hashing; one BLAS/OpenMP thread per worker (the harness already runs 16 processes)
+        os.execve(sys.executable, [sys.executable, "-m", "vf.run", *sys.argv[1:]], dict(os.environ, **want))
     root = os.path.dirname(os.path.dirname(os.path.abspath(__file__)))
     deps = os.path.join(root, ".deps")
     try:
